@@ -247,3 +247,12 @@ Theorem C10_store_trace_monitor_accepts_model : forall ws,
   store_trace_ok (Z.of_nat (fold_right Nat.add 0%nat ws)) (sev_of_store ws) = true.
 Proof. exact store_trace_ok_of_model. Qed.
 Print Assumptions C10_store_trace_monitor_accepts_model.
+
+Theorem C10_load_trace_monitor_accepts_model : forall rs,
+  load_trace_ok (Z.of_nat (fold_right Nat.add 0%nat rs)) (sev_of_load rs) = true.
+Proof. exact load_trace_ok_of_model. Qed.
+Print Assumptions C10_load_trace_monitor_accepts_model.
+
+Theorem C10_delete_trace_monitor_accepts_model : delete_trace_ok [Sev 9 1 0] = true /\ lts_delete = Some [9%Z].
+Proof. exact delete_trace_ok_of_model. Qed.
+Print Assumptions C10_delete_trace_monitor_accepts_model.
